@@ -573,6 +573,10 @@ class Parser:
         return value
 
     def check_fstring_conversion(self, name: TokenInfo) -> int:
+        if name.start[1] == 0 or name.line[name.start[1] - 1 : name.start[1]] != "!":
+            self.raise_syntax_error_known_location(
+                "f-string: conversion type must come right after the exclamanation mark", name
+            )
         s = unicodedata.normalize("NFKC", name.string)  # the conversion is an identifier, compared like any other
         if len(s) > 1 or s not in ("s", "r", "a"):
             self.raise_syntax_error_known_location(
@@ -691,12 +695,17 @@ class Parser:
         **locs: int,
     ) -> ast.FormattedValue:
         """A replacement field; with the `=` specifier the source text of the expression becomes a literal part."""
-        if isinstance(value, ast.Lambda):
-            # a colon at the level of the field starts the format spec, so a lambda must be parenthesised; its node
-            # starts right after the field's brace only when it is not
-            between = self._tokenizer._source_text((locs["lineno"], locs["col_offset"] + 1), (value.lineno, value.col_offset))
-            if between is not None and not between.strip():
-                self.raise_syntax_error_known_location("f-string: lambda expressions are not allowed without parentheses", value)
+        # a colon at the level of the field starts the format spec, so a lambda must be inside brackets of the field: when
+        # the spec is made of nested fields only ('{lambda x:{1}}', '{1,lambda y:{y}}') its tokens read like a lambda body
+        for node in ast.walk(value):
+            if isinstance(node, ast.Lambda):
+                first, last = (locs["lineno"], locs["col_offset"] + 1), (node.lineno, node.col_offset)
+                depth = 0
+                for tok in self._tokenizer._tokens:
+                    if tok.type == Token.OP and first <= tok.start < last:
+                        depth += (tok.string[-1] in "([{") - (tok.string in ")]}")
+                if depth == 0:
+                    self.raise_syntax_error_known_location("f-string: lambda expressions are not allowed without parentheses", node)
         if conversion is None:
             conversion = b"r"[0] if debug and format_spec is None else -1
         node = ast.FormattedValue(value=value, conversion=conversion, format_spec=format_spec, **locs)
